@@ -3,13 +3,42 @@ package main
 import (
 	"fmt"
 	"go/ast"
+	"go/token"
 	"sort"
 	"strings"
 )
 
+// intConst finds `const name = <int literal>` (or in a const block) in a package.
+func intConst(p *pkgFiles, name string) string {
+	for _, fn := range p.names {
+		for _, d := range p.files[fn].Decls {
+			gd, ok := d.(*ast.GenDecl)
+			if !ok || gd.Tok != token.CONST {
+				continue
+			}
+			for _, sp := range gd.Specs {
+				vs := sp.(*ast.ValueSpec)
+				for i, id := range vs.Names {
+					if id.Name == name && i < len(vs.Values) {
+						if bl, ok := vs.Values[i].(*ast.BasicLit); ok && bl.Kind == token.INT {
+							return bl.Value
+						}
+					}
+				}
+			}
+		}
+	}
+	fatal("integer constant %s not found", name)
+	return ""
+}
+
 func genConsts() {
 	var b strings.Builder
-	b.WriteString("namespace Miller.Gen\n\nend Miller.Gen\n")
+	b.WriteString("namespace Miller.Gen\n\n")
+	out := loadPkg("pkg/output")
+	b.WriteString("/-- pkg/output/file_output_handlers.go: how many redirected-output files are held open at once. -/\n")
+	b.WriteString("def lruFileHandlerCapacity : Nat := " + intConst(out, "lruFileHandlerCapacity") + "\n")
+	b.WriteString("\nend Miller.Gen\n")
 	emit("Consts.lean", b.String())
 }
 
